@@ -346,6 +346,16 @@ func (p c19) faithful(c *core.Ctx) {
 		c.Fail("", fmt.Sprintf("tag %q: IsRequired()=%v but explicit required=false present: %v", tag, pr.IsRequired(), wantOptional), nil)
 		return
 	}
+	// formatting a property (debug logging, error messages) is an observation: the arguments read the same
+	// afterwards, items in the order written
+	_ = pr.Args().String()
+	_ = pr.String()
+	for key, want := range rargs {
+		if got, _ := pr.Args().Find(component_definition.ArgType(key)); !reflect.DeepEqual(got, want) {
+			c.Fail("", fmt.Sprintf("tag %q: after the property was formatted (String()), argument %q has items %q, expected %q", tag, key, got, want), nil)
+			return
+		}
+	}
 	// run-time additions through the public API address the same argument whatever the case of the first
 	// letter: AddArg appends to what the tag gave, SetArg replaces it
 	for _, key := range core.SortedKeys(rargs) {
